@@ -30,6 +30,44 @@ WILD = "."
 SIG_D3 = "C18|DeviationBidirEpsilon@symbol_re.py:NFA.from_ast"
 
 
+# ------------------------------------------------------------------------------------ TLC runs
+def run_tlc(module, cfg, **kw):
+    """tlc.run; when VERIF_TLC_CACHE names a directory (mutation campaigns: same spec, many variants of the
+    code) the result and dump of an identical earlier run (same spec files, cfg, arguments) are reused."""
+    import hashlib
+    import pickle
+    import shutil
+
+    d = os.environ.get("VERIF_TLC_CACHE")
+    if not d:
+        return tlc.run(module, cfg, **kw)
+    h = hashlib.sha1()
+    for fn in sorted(os.listdir(tlc.SPEC)):
+        if fn.endswith(".tla"):
+            with open(os.path.join(tlc.SPEC, fn), "rb") as f:
+                h.update(f.read())
+    h.update(repr((module, cfg, sorted((k, v) for k, v in kw.items() if k != "env"))).encode())
+    for k, v in sorted((kw.get("env") or {}).items()):
+        h.update(k.encode())
+        if os.path.isfile(v):
+            with open(v, "rb") as f:
+                h.update(f.read())
+    key = os.path.join(d, h.hexdigest())
+    if os.path.exists(key + ".pkl"):
+        with open(key + ".pkl", "rb") as f:
+            res = pickle.load(f)
+        if res.dump_path:
+            res.dump_path = key + ".dump"
+        return res
+    res = tlc.run(module, cfg, **kw)
+    os.makedirs(d, exist_ok=True)
+    if res.dump_path:
+        shutil.copy(res.dump_path, key + ".dump")
+    with open(key + ".pkl", "wb") as f:
+        pickle.dump(res, f)
+    return res
+
+
 # ------------------------------------------------------------------------------------ dump loading
 _HDR = re.compile(r"^State \d+:.*$", re.M)
 _VAR = re.compile(r"^/\\ ([A-Za-z_][A-Za-z0-9_]*) = ", re.M)
@@ -411,7 +449,7 @@ def enum_part(ctx, stats):
     seen = set()
     samples = []
     for c in consts:
-        res = tlc.run("SymbolRegex", cfg_text(c), dump=True)
+        res = run_tlc("SymbolRegex", cfg_text(c), dump=True)
         ctx.add_tlc(res, "exhaustive (enumerated patterns)", c)
         pats = load_states(res.dump_path)
         jobs = []
@@ -449,7 +487,7 @@ def real_part(ctx, stats):
             asts[repr(_tup(a))] = (text, where)
             f.write(json.dumps({"ast": a, "alphabet": alphabet, "text": text}) + "\n")
     c = dict(ENUM_CONSTANTS["quick"], Mode="file", MaxLen=maxlen)
-    res = tlc.run("SymbolRegex", cfg_text(c), dump=True, env={"C18_PATTERNS": path})
+    res = run_tlc("SymbolRegex", cfg_text(c), dump=True, env={"C18_PATTERNS": path})
     ctx.add_tlc(res, "exhaustive (real patterns, file mode)", {"MaxLen": maxlen, "alphabet": alphabet, "patterns": [t for t, _ in pats]})
     states = load_states(res.dump_path)
     jobs = []
